@@ -506,6 +506,11 @@ func (ifc *wiface) dialFunc(mode system.DialerMode) func() (*system.DialContext,
 		e.F = faultTag(f)
 		ref := w.log.Add(e)
 		w.park(f)
+		// Creating a socket takes a little while, and a different while on every
+		// interface: without this, the timers of interfaces initialised in the
+		// same instant tie exactly forever, and the runtime breaks timer ties by
+		// heap position, which depends on what ran earlier in the process.
+		time.Sleep(time.Duration(1009*ifc.spec.Index+10007*ifc.n.id+13) * time.Nanosecond)
 		x := verifsim.Event{K: "dial.exit", Node: ifc.n.id, If: ifc.spec.Name, Ref: ref}
 		if f != nil && f.Err != "" {
 			w.fault("dial." + f.Err)
